@@ -35,6 +35,12 @@ CHECKS={
  "C08": dict(tech="proptest-generated three-package workspaces x exhaustive (identifier occurrence x 48 candidate names) matrix; reference-model oracle for name classes, locality and alias spellings", engine="sandbox",
    text="Exploration: every identifier occurrence of every generated workspace (local root, external build/packages dependency, local path dependency) is renamed to each of 48 candidate names; refusals must match an independent model (name class per symbol kind, module, alias spelling, external package), prepare_rename must agree with rename, no accepted rename may edit a dependency.",
    note="Symbol kind/locality/alias are known from the generator; the name-class model does not use the glas lexer.", ref="DESIGN.md §5 C08"),
+ "C09": dict(tech="proptest-generated two-module programs from a type-directed generator (every expression built against a chosen target type); reference-model oracle: the type known by construction vs the type shown on hover, up to alpha-equivalence", engine="inproc",
+   text="Exploration: 3k/100k generated programs (about 65k/2M binders): literals, operators incl. && || != and prefix ! -, comparisons, tuples and indexes, lists and spreads, Result, records with labels in any order, field access, blocks, case on Bool/Result/lists with several subjects, generic functions and constructors, labelled and cross-module calls, lambdas, captures, pipelines, let/lambda annotations incl. aliases of this and of another module, `todo` initialisers, constructor patterns with every mix of positional and labelled sub-patterns, functions in stream-chosen order with a mutually recursive group. Hover on every binder must show the type the generator built the program for.",
+   note="Typing rules are Gleam's documented ones as implemented in the generator; no let-polymorphism assumed; known finding C09-F1 (module constants have no type) is excluded by construction (VERIF_C09_PROBE=const generates them) and its witness replayed.", ref="DESIGN.md §5 C09"),
+ "C18": dict(tech="proptest-generated workspaces with expression holes from the scope-aware generator; reference-model oracle (names in scope known by construction) + metamorphic accept-and-reanalyse oracle", engine="sandbox",
+   text="Exploration: 2.5k/60k generated workspaces with placeholder holes at the end of blocks (plain and keyword-spelled), `accessor.` holes and `value.` holes: offered param/function/variant/module items must equal the names visible at the hole; every replacement range is exactly the placeholder; each accepted item, inserted into a FRESH workspace, must resolve by go-to-definition to the declaration that name denotes at the hole.",
+   note="Prelude constructors are optional members; keywords/snippets ignored; the visible-name model is the generator's (Gleam scoping).", ref="DESIGN.md §5 C18"),
  "C10": dict(tech="proptest-generated broken workspaces x sweep of every query kind at every token-boundary offset; crash oracle in sandboxed worker processes", engine="sandbox",
    text="Exploration: 3k/80k workspaces broken by damage, truncation, emptied files, self/unresolved/duplicate/cyclic imports, arity-mismatched clauses, alias cycles, non-ASCII identifiers, garbage files; ~500 query calls each. A panic is caught and attributed; a worker killed by a signal or stalled is confirmed alone.",
    note="Offsets within 0..=len; known finding C10-F1 (import cycle with mutually recursive qualified calls => salsa cycle panic) excluded by construction and replayed.", ref="DESIGN.md §5 C10"),
